@@ -1,4 +1,362 @@
-import Pun.Model.WellFormed
-/-! C04 theorems (in progress) -/
+import Pun.Lemmas.WellFormed
+import Mathlib.Algebra.BigOperators.Group.Finset.Basic
+import Mathlib.Algebra.BigOperators.Ring.Finset
+import Mathlib.Algebra.Order.BigOperators.Group.Finset
+import Mathlib.Tactic.Ring
+import Mathlib.Tactic.Positivity
+/-!
+# C04 — every p-box value handed to the user is well formed
+
+All statements are about the functions the model driver executes (`Pun.WF.mkN`, `Pun.WF.eval`, the shared
+`Pun.PBox` operations), for bounds of ANY length and histories of ANY depth.
+
+* `steps_exact`, `steps_total`, `steps_empty`, `condense_keeps_ends` — `bound_steps_check` returns exactly the
+  configured number of steps from every non-empty bound (longer: condensation keeping both ends; shorter: 'next'
+  interpolation), and raises on an empty one;
+* `nan_rejected` — NaN (an element no comparison accepts) anywhere in a bound makes the constructor raise;
+* `constructor_wf` — whatever `Staircase(left, right)` returns, for ANY arrays or lists, is well formed;
+* `binop_wf`, `num_wf`, `rnum_wf`, `neg_wf'`, `recip_wf'`, `unary_wf`, `env_wf'`, `imp_wf'` — every node kind maps
+  well-formed operands to a well-formed result *by itself* (before the constructor's order check);
+* `guard_never_fires` — hence the order check of the constructor never raises inside arithmetic: a history
+  evaluates the same with (`eval`) and without (`evalNG`) the re-check on arithmetic nodes;
+* `eval_wf` — every history that returns a value returns a well-formed box whose reported range
+  `[min(left), max(right)]` is `[left[0], right[n-1]]`;
+* `mean_in_support`, `var_le_quarter_range` — any finite distribution on `[a, b]` has mean in `[a, b]` and variance
+  at most `(b-a)²/4` (Popoviciu): the limits the oracle applies to the reported moment bounds, and what the repaired
+  last-resort branch of `_init_moments` reports.
+
+Not proved (tie + oracle only): the numerical moment code (LP, ECDF fallback), operations outside the model
+(`pow`, `min`/`max`, `sin`/`cos`/`tanh`, condensation, DSS round trip) — there the fixed constructor's order check
+(`constructor_wf`) is what guarantees the result.
+-/
+set_option linter.unusedSimpArgs false
+set_option linter.unusedVariables false
+set_option linter.dupNamespace false
 namespace Pun.WF
+open Pun Pun.PBox List
+
+/-! ## exact number of steps -/
+
+/-- **★ steps_exact** -/
+theorem steps_exact (c : Cfg) (b b' : List NR) (h : boundStepsN c b = .ok b') : b'.length = c.steps :=
+  boundStepsN_length h
+
+theorem steps_total (c : Cfg) (b : List NR) (hb : b ≠ []) : ∃ b', boundStepsN c b = .ok b' ∧ b'.length = c.steps := by
+  obtain ⟨b', h⟩ := boundStepsN_total c hb
+  exact ⟨b', h, boundStepsN_length h⟩
+
+/-- an empty bound raises `IndexError` (for a positive number of steps) -/
+theorem steps_empty (c : Cfg) (h : 0 < c.steps) : boundStepsN c [] = .error .Index := by
+  unfold boundStepsN stretchN
+  simp [h]
+
+/-- condensation keeps the first and the last entry of the bound -/
+theorem condense_keeps_ends (len n : Nat) (hn : 2 ≤ n) :
+    condenseIdx len n 0 = 0 ∧ condenseIdx len n (n - 1) = len - 1 := by
+  unfold condenseIdx
+  have h1 : ¬ n ≤ 1 := by omega
+  simp only [h1, if_false, Nat.zero_mul, Nat.zero_div, true_and]
+  exact Nat.mul_div_cancel_left _ (by omega)
+
+example : condenseIdx 997 200 199 = 996 := by decide +kernel
+example : boundStepsN ⟨3, 1/1000, 999/1000⟩ [some 5, some 7] = .ok [some 5, some 7, some 7] := by decide +kernel
+example : boundStepsN ⟨2, 1/1000, 999/1000⟩ [some 1, none, some 4, some 9] = .ok [some 1, some 9] := by decide +kernel
+
+/-! ## NaN -/
+
+/-- **★ nan_rejected**: a NaN anywhere in a bound of the configured length (at least two steps) makes the
+constructor raise, through the monotonicity test -/
+theorem nan_rejected (c : Cfg) (h2 : 2 ≤ c.steps) (lists : Bool) (l r : List NR)
+    (hl : l.length = c.steps) (hr : r.length = c.steps) (hn : none ∈ l ∨ none ∈ r) :
+    ∃ e, mkN c lists l r = .error e := by
+  unfold mkN
+  cases hsw : switchN lists l r with
+  | error e => exact ⟨e, rfl⟩
+  | ok sw =>
+    simp only [bind, Except.bind]
+    cases sw with
+    | true => exact ⟨.Other, by simpa using mkCore_nan h2 hr hl hn.symm⟩
+    | false => exact ⟨.Other, by simpa using mkCore_nan h2 hl hr hn⟩
+
+example : mkN ⟨3, 1/1000, 999/1000⟩ false [some 1, none, some 3] [some 2, some 3, some 4] = .error .Other := by
+  decide +kernel
+
+/-! ## the constructor -/
+
+/-- **★ constructor_wf** -/
+theorem constructor_wf (c : Cfg) (lists : Bool) (l r : List NR) (P : PB) (h : mkN c lists l r = .ok P) :
+    WF c.steps P := mkN_wf h
+
+-- accepted, swapped as a whole, rejected when the bounds cross
+example : mkN ⟨2, 1/1000, 999/1000⟩ false [some 1, some 2] [some 2, some 3] = .ok ⟨[1, 2], [2, 3]⟩ := by decide +kernel
+example : mkN ⟨2, 1/1000, 999/1000⟩ false [some 2, some 3] [some 1, some 2] = .ok ⟨[1, 2], [2, 3]⟩ := by decide +kernel
+example : mkN ⟨2, 1/1000, 999/1000⟩ false [some 1, some 4] [some 2, some 3] = .error .Other := by decide +kernel
+example : WF 2 ⟨[1, 2], [2, 3]⟩ := ⟨rfl, rfl, by decide, by decide, by repeat constructor⟩
+
+/-! ## every node kind keeps operands well formed (★ op_wf) -/
+
+/-- add / sub / mul / div between two p-boxes under every dependency code -/
+theorem binop_wf (n : Nat) (o : Op) (d : Dep) (x y P : PB) (hx : WF n x) (hy : WF n y)
+    (h : binopC n o d x y = .ok P) : WF n P := binopC_wf n o d x y P hx hy h
+
+theorem num_wf (n : Nat) (o : Op) (c : Rat) (x P : PB) (hx : WF n x) (h : numRight n o x c = .ok P) : WF n P :=
+  numRight_wf n o c x P hx h
+
+theorem rnum_wf (n : Nat) (o : Op) (c : Rat) (x P : PB) (hx : WF n x) (h : numLeftC n o c x = .ok P) : WF n P :=
+  numLeftC_wf n o c x P hx h
+
+theorem neg_wf' (n : Nat) (x P : PB) (hx : WF n x) (h : PBox.neg n x = .ok P) : WF n P := neg_wf n x P hx h
+
+theorem recip_wf' (n : Nat) (x P : PB) (hx : WF n x) (h : PBox.recip n x = .ok P) : WF n P := recip_wf n x P hx h
+
+/-- exp / sqrt / log for ANY non-decreasing function in place of the tabulated one -/
+theorem unary_wf (n : Nat) (k : UKind) (t : List (Rat × Rat)) (ht : (t.map Prod.snd).Pairwise (· ≤ ·))
+    (x P : PB) (hx : WF n x) (h : unaryK n k t x = .ok P) : WF n P :=
+  unaryK_wf n k t (tabAp_mono t ht) x P hx h
+
+example : ([((1 : Rat), (2 : Rat)), (3, 5)].map Prod.snd).Pairwise (· ≤ ·) := by decide
+
+theorem env_wf' (n : Nat) (x y P : PB) (hx : WF n x) (hy : WF n y) (h : PBox.env n x y = .ok P) : WF n P :=
+  env_wf n x y P hx hy h
+
+theorem imp_wf' (n : Nat) (x y P : PB) (hx : WF n x) (hy : WF n y) (h : PBox.imp n x y = .ok P) : WF n P :=
+  imp_wf n x y P hx.toWFS hy.toWFS h
+
+/-! ## histories -/
+
+theorem guardLE_of_wf {n : Nat} {z : PB} (h : WF n z) : guardLE z = .ok z := by
+  unfold guardLE
+  have : anyGt z.left z.right = false := (anyGt_false_iff (by rw [h.llen, h.rlen])).mpr h.le
+  simp [this]
+
+theorem guardLE_ok {z P : PB} (h : guardLE z = .ok P) : P = z ∧ anyGt z.left z.right = false := by
+  unfold guardLE at h
+  split at h
+  · cases h
+  · rename_i hg
+    cases h
+    exact ⟨rfl, by simpa using hg⟩
+
+/-- a guarded node: the guard changes nothing when the node's result is well formed -/
+theorem bind_guard_eq {n : Nat} (m : Except Err PB) (hm : ∀ z, m = .ok z → WF n z) : (m >>= guardLE) = m := by
+  cases m with
+  | error e => rfl
+  | ok z => exact guardLE_of_wf (hm z rfl)
+
+/-- **histories without the re-check are well formed** (any depth) -/
+theorem evalNG_wf (c : Cfg) : ∀ (e : Expr) (P : PB), evalNG c e = .ok P → WF c.steps P := by
+  intro e
+  induction e with
+  | leaf lists l r => intro P h; exact mkN_wf h
+  | bin o d a b iha ihb =>
+    intro P h
+    unfold evalNG at h
+    obtain ⟨x, hx, h⟩ := bind_ok_inv h
+    obtain ⟨y, hy, h⟩ := bind_ok_inv h
+    exact binopC_wf _ o d x y P (iha x hx) (ihb y hy) h
+  | num o a k iha =>
+    intro P h
+    unfold evalNG at h
+    obtain ⟨x, hx, h⟩ := bind_ok_inv h
+    exact numRight_wf _ o k x P (iha x hx) h
+  | rnum o k a iha =>
+    intro P h
+    unfold evalNG at h
+    obtain ⟨x, hx, h⟩ := bind_ok_inv h
+    exact numLeftC_wf _ o k x P (iha x hx) h
+  | neg a iha =>
+    intro P h
+    unfold evalNG at h
+    obtain ⟨x, hx, h⟩ := bind_ok_inv h
+    exact neg_wf _ x P (iha x hx) h
+  | recip a iha =>
+    intro P h
+    unfold evalNG at h
+    obtain ⟨x, hx, h⟩ := bind_ok_inv h
+    exact recip_wf _ x P (iha x hx) h
+  | unary k t a iha =>
+    intro P h
+    unfold evalNG at h
+    obtain ⟨x, hx, h⟩ := bind_ok_inv h
+    obtain ⟨z, hz, h⟩ := bind_ok_inv h
+    obtain ⟨rfl, hg⟩ := guardLE_ok h
+    -- the unary template ends in a constructor call (length, monotone); the order check gives the rest
+    have wz : WFS c.steps P := by
+      unfold unaryK at hz
+      cases k with
+      | exp => exact mk_wfs hz
+      | sqrt =>
+        simp only at hz
+        split at hz
+        · cases hz
+        · exact mk_wfs hz
+      | log =>
+        simp only at hz
+        split at hz
+        · cases hz
+        · split at hz
+          · cases hz
+          · exact mk_wfs hz
+    exact ⟨wz.llen, wz.rlen, wz.lsorted, wz.rsorted, (anyGt_false_iff (by rw [wz.llen, wz.rlen])).mp hg⟩
+  | env a b iha ihb =>
+    intro P h
+    unfold evalNG at h
+    obtain ⟨x, hx, h⟩ := bind_ok_inv h
+    obtain ⟨y, hy, h⟩ := bind_ok_inv h
+    exact env_wf _ x y P (iha x hx) (ihb y hy) h
+  | imp a b iha ihb =>
+    intro P h
+    unfold evalNG at h
+    obtain ⟨x, hx, h⟩ := bind_ok_inv h
+    obtain ⟨y, hy, h⟩ := bind_ok_inv h
+    exact imp_wf _ x y P (iha x hx).toWFS (ihb y hy).toWFS h
+
+/-- **★ guard_never_fires**: the constructor's order check never raises inside arithmetic, negation,
+reciprocal, envelope or imposition — evaluating a history with the check after every node (`eval`, the code as
+it is) or only at leaves and unary maps (`evalNG`) gives the same value or the same exception -/
+theorem guard_never_fires (c : Cfg) : ∀ e : Expr, eval c e = evalNG c e := by
+  intro e
+  induction e with
+  | leaf lists l r => rfl
+  | bin o d a b iha ihb =>
+    unfold eval evalNG
+    rw [iha, ihb]
+    cases hx : evalNG c a with
+    | error e => rfl
+    | ok x =>
+      cases hy : evalNG c b with
+      | error e => rfl
+      | ok y =>
+        exact bind_guard_eq (n := c.steps) _ (fun z hz => binopC_wf _ o d x y z (evalNG_wf c a x hx) (evalNG_wf c b y hy) hz)
+  | num o a k iha =>
+    unfold eval evalNG
+    rw [iha]
+    cases hx : evalNG c a with
+    | error e => rfl
+    | ok x => exact bind_guard_eq (n := c.steps) _ (fun z hz => numRight_wf _ o k x z (evalNG_wf c a x hx) hz)
+  | rnum o k a iha =>
+    unfold eval evalNG
+    rw [iha]
+    cases hx : evalNG c a with
+    | error e => rfl
+    | ok x => exact bind_guard_eq (n := c.steps) _ (fun z hz => numLeftC_wf _ o k x z (evalNG_wf c a x hx) hz)
+  | neg a iha =>
+    unfold eval evalNG
+    rw [iha]
+    cases hx : evalNG c a with
+    | error e => rfl
+    | ok x => exact bind_guard_eq (n := c.steps) _ (fun z hz => neg_wf _ x z (evalNG_wf c a x hx) hz)
+  | recip a iha =>
+    unfold eval evalNG
+    rw [iha]
+    cases hx : evalNG c a with
+    | error e => rfl
+    | ok x => exact bind_guard_eq (n := c.steps) _ (fun z hz => recip_wf _ x z (evalNG_wf c a x hx) hz)
+  | unary k t a iha =>
+    unfold eval evalNG
+    rw [iha]
+  | env a b iha ihb =>
+    unfold eval evalNG
+    rw [iha, ihb]
+    cases hx : evalNG c a with
+    | error e => rfl
+    | ok x =>
+      cases hy : evalNG c b with
+      | error e => rfl
+      | ok y =>
+        exact bind_guard_eq (n := c.steps) _ (fun z hz => env_wf _ x y z (evalNG_wf c a x hx) (evalNG_wf c b y hy) hz)
+  | imp a b iha ihb =>
+    unfold eval evalNG
+    rw [iha, ihb]
+    cases hx : evalNG c a with
+    | error e => rfl
+    | ok x =>
+      cases hy : evalNG c b with
+      | error e => rfl
+      | ok y =>
+        exact bind_guard_eq (n := c.steps) _
+          (fun z hz => imp_wf _ x y z (evalNG_wf c a x hx).toWFS (evalNG_wf c b y hy).toWFS hz)
+
+/-- the reported range `Interval(min(left), max(right))` of a well-formed box is `[left[0], right[n-1]]` -/
+theorem range_eq {n : Nat} {P : PB} (h : WF n P) : initRange P = (PBox.lo P, PBox.hi P) := by
+  unfold initRange PBox.lo PBox.hi
+  congr 1
+  · cases hl : P.left with
+    | nil => rfl
+    | cons a t =>
+      have hs := h.lsorted
+      rw [hl] at hs
+      have hne : (a :: t) ≠ [] := by simp
+      obtain ⟨hm, hlb⟩ := minL_spec 0 (a :: t) hne
+      simp only [headD_cons]
+      apply le_antisymm (hlb a (by simp))
+      rcases mem_cons.mp hm with e | hm'
+      · rw [e]
+      · exact (pairwise_cons.mp hs).1 _ hm'
+  · by_cases hr : P.right = []
+    · rw [hr]; rfl
+    · obtain ⟨hm, hub⟩ := maxL_spec 0 P.right hr
+      apply le_antisymm (le_getLastD h.rsorted hm)
+      apply hub
+      rw [getLastD_eq hr]; exact getElem_mem _
+
+/-- **★ eval_wf**: a history of any depth either raises or returns a well-formed box — exactly `steps`
+entries in each bound, both non-decreasing, `left ≤ right` at every step (NaN-free by construction of the
+value) — whose reported range is `[left[0], right[n-1]]` -/
+theorem eval_wf (c : Cfg) (e : Expr) (P : PB) (h : eval c e = .ok P) :
+    WF c.steps P ∧ initRange P = (PBox.lo P, PBox.hi P) := by
+  rw [guard_never_fires] at h
+  have w := evalNG_wf c e P h
+  exact ⟨w, range_eq w⟩
+
+-- non-vacuity: a history that evaluates (leaf + number)
+example : eval ⟨2, 1/1000, 999/1000⟩ (.leaf false [some 1, some 2] [some 2, some 3]) = .ok ⟨[1, 2], [2, 3]⟩ := by
+  decide +kernel
+
+/-! ## moment limits used by the oracle (○) -/
+
+open Finset in
+/-- the mean of a finite distribution on `[a, b]` lies in `[a, b]` -/
+theorem mean_in_support {m : Nat} (w x : Fin m → Rat) (a b : Rat) (hw : ∀ i, 0 ≤ w i) (h1 : ∑ i, w i = 1)
+    (hx : ∀ i, a ≤ x i ∧ x i ≤ b) : a ≤ ∑ i, w i * x i ∧ ∑ i, w i * x i ≤ b := by
+  constructor
+  · calc a = ∑ i, w i * a := by rw [← Finset.sum_mul, h1, one_mul]
+      _ ≤ ∑ i, w i * x i := Finset.sum_le_sum (fun i _ => mul_le_mul_of_nonneg_left (hx i).1 (hw i))
+  · calc ∑ i, w i * x i ≤ ∑ i, w i * b := Finset.sum_le_sum (fun i _ => mul_le_mul_of_nonneg_left (hx i).2 (hw i))
+      _ = b := by rw [← Finset.sum_mul, h1, one_mul]
+
+open Finset in
+/-- Popoviciu: the variance of a finite distribution on `[a, b]` is at most `(b - a)² / 4` (and non-negative) -/
+theorem var_le_quarter_range {m : Nat} (w x : Fin m → Rat) (a b : Rat) (hw : ∀ i, 0 ≤ w i) (h1 : ∑ i, w i = 1)
+    (hx : ∀ i, a ≤ x i ∧ x i ≤ b) :
+    0 ≤ ∑ i, w i * (x i - ∑ j, w j * x j) ^ 2 ∧
+    ∑ i, w i * (x i - ∑ j, w j * x j) ^ 2 ≤ (b - a) ^ 2 / 4 := by
+  set μ := ∑ j, w j * x j with hμ
+  set c := (a + b) / 2 with hc
+  constructor
+  · exact Finset.sum_nonneg (fun i _ => mul_nonneg (hw i) (sq_nonneg _))
+  · -- spread around the midpoint = variance + (μ - c)²
+    have key : ∑ i, w i * (x i - c) ^ 2 = ∑ i, w i * (x i - μ) ^ 2 + (μ - c) ^ 2 := by
+      have e : ∀ i, w i * (x i - c) ^ 2 = w i * (x i - μ) ^ 2 + ((μ - c) * 2 * (w i * x i) - (μ - c) * (c + μ) * w i) := by
+        intro i; ring
+      rw [Finset.sum_congr rfl (fun i _ => e i), Finset.sum_add_distrib, Finset.sum_sub_distrib,
+        ← Finset.mul_sum, ← Finset.mul_sum, h1, ← hμ]
+      ring
+    have bound : ∑ i, w i * (x i - c) ^ 2 ≤ ∑ i, w i * ((b - a) ^ 2 / 4) := by
+      apply Finset.sum_le_sum
+      intro i _
+      apply mul_le_mul_of_nonneg_left _ (hw i)
+      have h2 : (b - a) ^ 2 / 4 - (x i - c) ^ 2 = (x i - a) * (b - x i) := by rw [hc]; ring
+      have h3 : 0 ≤ (x i - a) * (b - x i) := mul_nonneg (by linarith [(hx i).1]) (by linarith [(hx i).2])
+      linarith
+    have tot : ∑ i, w i * ((b - a) ^ 2 / 4) = (b - a) ^ 2 / 4 := by rw [← Finset.sum_mul, h1, one_mul]
+    have := sq_nonneg (μ - c)
+    linarith
+
+-- non-vacuity: a distribution meeting the hypotheses (two points on the ends, which attains the variance limit)
+open Finset in
+example : ∃ (w x : Fin 2 → Rat), (∀ i, 0 ≤ w i) ∧ ∑ i, w i = 1 ∧ (∀ i, (0 : Rat) ≤ x i ∧ x i ≤ 2) :=
+  ⟨fun _ => 1 / 2, fun i => if i = 0 then 0 else 2, fun _ => by norm_num, by norm_num [Finset.sum_const],
+    fun i => by simp only []; split <;> norm_num⟩
+
 end Pun.WF
